@@ -2,12 +2,15 @@
 use crate::engine::Property;
 
 pub mod c01;
+pub mod c02;
+pub mod values;
 pub mod common;
 pub mod predicates;
 
 pub fn lookup(id: &str) -> Option<Box<dyn Property + Send>> {
     match id {
         "C01" => Some(Box::new(c01::C01)),
+        "C02" => Some(Box::new(c02::C02)),
         _ => None,
     }
 }
